@@ -247,6 +247,16 @@ Definition body_of (blocks : list blk) : list byte :=
   flat_map (fun b => match b with BChunk d => d | BEnd => [] end) blocks.
 Definition payload_of (fs : list dframe) : list byte := flat_map f_payload fs.
 
+(** A response that ends with a trailer section (HTTP/1.1 chunked with trailers, toward an H2 client): the
+    converter writes the body as before and, where the plain end of a message writes the empty DATA frame
+    carrying END_STREAM, one HEADERS frame with the trailer fields and END_STREAM (converter.rs, arm
+    Block::Flags with end_header: the header block accumulated since the body); with no field left
+    after filtering it is the empty DATA frame again. *)
+Inductive h2out := OData (payload : list byte) (end_stream : bool) | OTrailers (nfields : nat).
+Definition h2_out_with_trailers (nfields : nat) (fs : list dframe) : list h2out :=
+  map (fun f => if f_end f && negb (Nat.eqb nfields 0) then OTrailers nfields else OData (f_payload f) (f_end f)) fs.
+Definition is_trailers (o : h2out) : bool := match o with OTrailers _ => true | _ => false end.
+
 (** one prepare per window of the schedule (the write path consumes the output in between) *)
 Fixpoint h2_rounds (fuel : nat) (max : nat) (windows : list Z) (blocks : list blk) : list (list dframe * Z) * list blk :=
   match windows with
